@@ -106,12 +106,12 @@ def extract(unit, tmp, opt='-O1'):
 
 def main():
     with tempfile.TemporaryDirectory(prefix='vfp') as tmp:
-        inv, acc, calls, pubs = {}, {}, {}, set()
+        inv, acc, calls, pubs, defined = {}, {}, {}, set(), set()
         # unoptimised code shows every access the source makes (the project's default build has no -O); optimised code shows what
         # an optimiser may add (hoisted loads, merged stores): the footprint is the union
         for unit, opt in (('cJSON', '-O0'), ('cJSON_Utils', '-O0'), ('cJSON', '-O1'), ('cJSON_Utils', '-O1')):
             i, a, c, p = extract(unit, tmp, opt)
-            inv.update(i); pubs |= p
+            inv.update(i); pubs |= p; defined |= set(a.keys())
             for k, v in a.items():
                 for s2, kinds in v.items():
                     if opt == '-O0' and s2 == 'global_hooks':
@@ -121,7 +121,7 @@ def main():
                     acc.setdefault(k, {})[s2] = ''.join(sorted(set(acc.get(k, {}).get(s2, '') + kinds)))
             for k, v in c.items():
                 calls.setdefault(k, set()).update(v)
-    out = {}
+    out, outx = {}, {}
     for f in sorted(pubs):
         seen, stack, tot = set(), [f], {}
         while stack:
@@ -133,7 +133,8 @@ def main():
                 tot[s] = ''.join(sorted(set(tot.get(s, '') + k)))
             stack.extend(calls.get(g, ()))
         out[f] = tot
-    json.dump({'inventory': inv, 'functions': out}, sys.stdout, indent=1, sort_keys=True)
+        outx[f] = sorted(g for g in seen if g not in defined)      # functions the library does not define: the C library calls reachable from f
+    json.dump({'inventory': inv, 'functions': out, 'externals': outx}, sys.stdout, indent=1, sort_keys=True)
 
 
 if __name__ == '__main__':
